@@ -209,6 +209,8 @@ class Gen:
         self.out = []           # output lines
         self.meta = {'fns': [], 'modules': {}, 'assumed': [], 'lemmas': []}
         self.cur_mod_stack = []
+        self.degrade = set()
+        self.tag = None
 
     def lineno(self):
         return len(self.out) + 1
@@ -247,6 +249,9 @@ class Gen:
         header = None if header == '-' else header
         it = self.src.find_fn(mod, header, name)
         sig, body = split_fn(strip_docs(it.text))
+        if oid in self.degrade:
+            self._emit_fn(oid, it, lines, anchor=path + ' [%s .. %s]' % (a_from, a_to), slice_text='')
+            return
         ctx = ''
         if '^' in a_from:
             ctx, a_from = a_from.split('^', 1)
@@ -322,6 +327,11 @@ class Gen:
                 pass
             else:
                 raise TemplateError('unknown directive: ' + l)
+        deg = oid in self.degrade
+        if deg:
+            flags.add('external_body')
+            flags.discard('decl')
+            subs = [(k_, a_, b_, t_, True) for (k_, a_, b_, t_, o_) in subs]
         if slice_text is not None:
             if not synth_sig:
                 raise TemplateError('slice %s needs a //@ sig block' % oid)
@@ -512,13 +522,33 @@ class Gen:
                 while j < n and lines[j].strip().startswith('//@') and not re.match(r'//@(fn|slice|item|const|module|lemma|if|endif)\b', lines[j].strip()):
                     dl.append(lines[j].strip())
                     j += 1
+                mark_ = len(self.out)
                 try:
                     if s.startswith('//@fn '):
                         self.do_fn(s[6:], dl)
                     else:
                         self.do_slice(s[9:], dl)
                 except LostAnchor as e:
-                    raise LostAnchor('%s:%d: %s' % (name, i + 1, e))
+                    # a function whose module does not serve the property under check is not this check's obligation: keep
+                    # its contract (callers in other modules are checked against it, as always), drop its body, go on.
+                    # The property that owns the module still gets the lost anchor (undecided).
+                    oid_ = s.split()[1]
+                    props_ = self.meta['modules'].get('::'.join(self.cur_mod_stack), {}).get('props')
+                    tag_ = getattr(self, 'tag', None)
+                    if tag_ and props_ is not None and tag_ not in props_ and oid_ not in self.degrade:
+                        self.degrade.add(oid_)
+                        del self.out[mark_:]
+                        self.meta['fns'] = [f for f in self.meta['fns'] if f['id'] != oid_]
+                        try:
+                            if s.startswith('//@fn '):
+                                self.do_fn(s[6:], dl)
+                            else:
+                                self.do_slice(s[9:], dl)
+                            self.meta.setdefault('degraded', []).append({'id': oid_, 'why': str(e)[:300]})
+                        except LostAnchor as e2:
+                            raise LostAnchor('%s:%d: %s' % (name, i + 1, e2))
+                    else:
+                        raise LostAnchor('%s:%d: %s' % (name, i + 1, e))
                 i = j
                 continue
             if s.startswith('//@item-pub '):
@@ -603,9 +633,11 @@ class Gen:
             i += 1
 
 
-def generate(expanded_path, templates, out_rs, out_meta, flags=(), extra_sources=None, extra=None):
+def generate(expanded_path, templates, out_rs, out_meta, flags=(), extra_sources=None, extra=None, tag=None, degrade=None):
     src = Source(open(expanded_path).read())
     g = Gen(src, {'flags': list(flags)})
+    g.tag = tag
+    g.degrade = set(degrade or [])
     for k, pth in (extra_sources or {}).items():
         g.sources[k] = Source(open(pth).read())
     g.extra = extra or {}
